@@ -202,7 +202,7 @@ func (n *Node) Equals(other *Node) bool {
 // file format might be affected.
 func (n Node) String() string {
 	return fmt.Sprintf(
-		"%f : %f %f\n\text   : %s\n\tleft  : %s\n\tright : %s\n\tnet   : %s\n\tdof   : %v",
+		"%.17f : %v %v\n\text   : %s\n\tleft  : %s\n\tright : %s\n\tnet   : %s\n\tdof   : %v",
 		n.T.Value(),
 		n.Position.X(),
 		n.Position.Y(),
